@@ -146,9 +146,11 @@ def prior_state(p):
     return (list(p.keys), len(p.dists), out)
 
 
-def run_program(prog, malformed=None):
+def run_program(prog, malformed=None, observe=False):
     """Executes one declaration program on a real nautilus.Prior against the reference.
     malformed = (position, kind) inserts one malformed declaration before declaration `position`.
+    observe=True additionally reads dimensionality() and both transforms after EVERY declaration (a
+    prior that is used while it is being built); observe=False declares everything first.
     returns list of (signature, message)."""
     from nautilus import Prior
     out = []
@@ -209,7 +211,23 @@ def run_program(prog, malformed=None):
                     i, prog[i], type(e).__name__, e, p.keys))
             return out
         ref.declare(key, tok)
+        if observe and i < len(prog) - 1:
+            for sig, msg in compare(p, ref, first_only=True):
+                bad('prefix:' + sig, 'after declaration #{} of {}: {}'.format(i, len(prog), msg))
+            if out:
+                return out
     # ---- behaviour against the reference
+    out.extend(compare(p, ref))
+    return out
+
+
+def compare(p, ref, first_only=False):
+    """behaviour of the real prior `p` against the reference interpreter `ref`"""
+    out = []
+
+    def bad(sig, msg):
+        out.append((sig, msg))
+
     if len(p.keys) != len(ref.keys) or list(p.keys) != list(ref.keys):
         bad('keys-differ', 'keys {} but declared {}'.format(p.keys, ref.keys))
     if len(p.keys) != len(p.dists):
@@ -225,7 +243,7 @@ def run_program(prog, malformed=None):
         return out
     if d == 0:
         return out
-    for u in _inputs(d):
+    for u in (_inputs(d)[:1] if first_only else _inputs(d)):
         try:
             phys = p.unit_to_physical(np.array(u, copy=True))
             dic = p.unit_to_dictionary(np.array(u, copy=True))
@@ -333,6 +351,7 @@ def _shard_C15(tier, lengths, shard, n_shards):
     viol = {}
     n_prog = 0
     n_mal = 0
+    n_obs = 0
     sample = []
     idx = 0
     for L in lengths:
@@ -343,6 +362,11 @@ def _shard_C15(tier, lengths, shard, n_shards):
             n_prog += 1
             for sig, msg in run_program(prog):
                 viol.setdefault(sig, (msg, dict(program=[list(map(str, d)) for d in prog])))
+            if L >= 2:
+                n_obs += 1
+                for sig, msg in run_program(prog, observe=True):
+                    viol.setdefault(sig, (msg, dict(program=[list(map(str, d)) for d in prog],
+                                                    observe=True)))
             if len(sample) < 2 and L >= 3:
                 sample.append([list(map(str, d)) for d in prog])
             # every malformed declaration at every position (programs one shorter than the bound)
@@ -355,7 +379,7 @@ def _shard_C15(tier, lengths, shard, n_shards):
                         for sig, msg in run_program(prog, malformed=(pos, kind)):
                             viol.setdefault(sig, (msg, dict(
                                 program=[list(map(str, d)) for d in prog], malformed=[pos, kind])))
-    return dict(viol=viol, n_prog=n_prog, n_mal=n_mal, sample=sample)
+    return dict(viol=viol, n_prog=n_prog, n_mal=n_mal, n_obs=n_obs, sample=sample)
 
 
 def run_C15(tier):
@@ -374,14 +398,17 @@ def run_C15(tier):
     violations = [Violation('C15', sig, msg, rep) for sig, (msg, rep) in sorted(viol.items())]
     n_prog = sum(r['n_prog'] for r in res)
     n_mal = sum(r['n_mal'] for r in res) + n_ac
+    n_obs = sum(r['n_obs'] for r in res)
     samples = [s for r in res for s in r['sample']][:4]
     samples.append(dict(malformed_kinds=MALFORMED))
     cov = dict(
-        evaluations=n_prog + n_mal, distinct_nontrivial=n_prog + n_mal, exhaustive=True,
+        evaluations=n_prog + n_mal + n_obs, distinct_nontrivial=n_prog + n_mal + n_obs,
+        exhaustive=True, programs_observed_at_every_prefix=n_obs,
         rule='every declaration program of length 1..{} over {{named|auto key}} x {{uniform range, '
              'scipy norm, fixed number (int/float/numpy scalar), link to each earlier key}} '
              '(distinct by construction; non-trivial: at least one declaration) evaluated on (d,) '
-             'and (n,d) grids incl. 0 and 1-2^-53 against a reference interpreter; plus every '
+             'and (n,d) grids incl. 0 and 1-2^-53 against a reference interpreter, once declared completely '
+             'before use and once with dimensionality()/transforms read after every declaration; plus every '
              'malformed declaration kind at every position of every program of length <= {} and all '
              'auto-key collisions with k <= {}'.format(Lmax, Lmax - 1, 3 if tier == 'quick' else 5),
         programs=n_prog, malformed_programs=n_mal, samples=samples,
@@ -592,7 +619,7 @@ def replay(prop, path):
         if 'program' in r:
             prog = tuple((a, (b if not b.startswith('(') else eval(b))) for a, b in r['program'])
             mal = tuple(r['malformed']) if 'malformed' in r else None
-            res = run_program(prog, malformed=mal)
+            res = run_program(prog, malformed=mal, observe=bool(r.get('observe')))
         else:
             res, _ = auto_collision_cases('thorough')
     else:
